@@ -190,9 +190,26 @@ MHD_connection_epoll_update_ (struct MHD_Connection *connection);
 #endif
 
 /**
+ * Insert the connection into the 'normal_timeout' list of the daemon
+ * at the position defined by the connection's last activity time
+ * (the head of the list unless the clock has jumped back or the
+ * connection carries an old activity time).
+ * @remark The caller must hold the 'cleanup_connection_mutex'.
+ *
+ * @param daemon the daemon to use
+ * @param connection the connection to insert, must not be in any
+ *                   timeout list
+ */
+void
+MHD_normal_timeout_insert_sorted_ (struct MHD_Daemon *daemon,
+                                   struct MHD_Connection *connection);
+
+
+/**
  * Update the 'last_activity' field of the connection to the current time
- * and move the connection to the head of the 'normal_timeout' list if
- * the timeout for the connection uses the default value.
+ * and move the connection to its place (the head, unless the clock has
+ * jumped back) in the sorted 'normal_timeout' list if the timeout for
+ * the connection uses the default value.
  *
  * @param connection the connection that saw some activity
  */
